@@ -15,7 +15,7 @@ import (
 // Cfg says which known defects the code under test no longer exhibits (true = repaired). It is
 // passed to the Lean model (`cfg=abcd`) so that the model is compared bit for bit with the code as it is.
 type Cfg struct {
-	NameUnitCheck, PMBRClamp, MinDiskCheck, ArrayBounded bool
+	NameUnitCheck, PMBRClamp, MinDiskCheck, ArrayBounded, PMBRLast bool
 }
 
 func (c Cfg) String() string {
@@ -25,7 +25,7 @@ func (c Cfg) String() string {
 		}
 		return '0'
 	}
-	return string([]byte{b(c.NameUnitCheck), b(c.PMBRClamp), b(c.MinDiskCheck), b(c.ArrayBounded)})
+	return string([]byte{b(c.NameUnitCheck), b(c.PMBRClamp), b(c.MinDiskCheck), b(c.ArrayBounded), b(c.PMBRLast)})
 }
 
 const guidA = "5CA3360B-5DE6-4FCF-B4CE-419CEE433B51"
@@ -191,12 +191,32 @@ func ProbeMBRExtra() Probe {
 	return Probe{true, "Write accepted a table with 5 partitions and returned nil; the fifth (start 192) is not on disk"}
 }
 
+// ProbePMBROrder reports whether Table.Write makes the protective MBR durable before the GPT copies (as found)
+// or after them.
+func ProbePMBROrder() (pmbrLast bool, msg string) {
+	d := memdev.New(1 << 20)
+	t := &gpt.Table{LogicalSectorSize: 512, PhysicalSectorSize: 512, ProtectiveMBR: true, GUID: guidA}
+	if err, p := safely(func() error { return t.Write(d, 1<<20) }); err != nil || p != nil {
+		return false, fmt.Sprintf("write failed: %v %v", err, p)
+	}
+	var offs []int64
+	for _, e := range d.Log {
+		if !e.Sync {
+			offs = append(offs, e.Off)
+		}
+	}
+	if len(offs) > 0 && offs[len(offs)-1] == 446 {
+		return true, "the protective MBR is the last write"
+	}
+	return false, fmt.Sprintf("write offsets in order: %v", offs)
+}
+
 // ProbeCfg determines the defect switches for the model from the four GPT probes.
 func ProbeCfg() (Cfg, map[string]Probe) {
 	ps := map[string]Probe{
-		"gpt-name-utf16-overflow": ProbeNameOverflow(),
-		"gpt-pmbr-size-truncated": ProbePMBRSize(),
-		"gpt-no-min-disk-size":    ProbeMinDisk(),
+		"gpt-name-utf16-overflow":  ProbeNameOverflow(),
+		"gpt-pmbr-size-truncated":  ProbePMBRSize(),
+		"gpt-no-min-disk-size":     ProbeMinDisk(),
 		"gpt-array-size-unbounded": ProbeArrayBound(),
 	}
 	return Cfg{
@@ -204,5 +224,6 @@ func ProbeCfg() (Cfg, map[string]Probe) {
 		PMBRClamp:     !ps["gpt-pmbr-size-truncated"].Reproduced,
 		MinDiskCheck:  !ps["gpt-no-min-disk-size"].Reproduced,
 		ArrayBounded:  !ps["gpt-array-size-unbounded"].Reproduced,
+		PMBRLast:      func() bool { l, _ := ProbePMBROrder(); return l }(),
 	}, ps
 }
